@@ -6,6 +6,7 @@ use std::sync::Mutex;
 use std::time::Duration;
 
 mod simfs;
+mod suite_codec;
 mod suite_corrupt;
 mod suite_crash;
 mod suite_db;
@@ -52,6 +53,7 @@ fn main() {
         "corrupt" => suite_corrupt::run_corrupt,
         "sched" => suite_sched::run_sched,
         "lock" => suite_lock::run_lock,
+        "codec" => suite_codec::run_codec,
         _ => panic!("unknown suite {}", suite),
     };
     let timeout = Duration::from_secs(
